@@ -12,7 +12,7 @@ use std::cmp::Ordering;
 use std::sync::Arc;
 
 pub fn count(tier: Tier) -> u64 {
-    tier.pick(160, 3000)
+    tier.pick(320, 3000)
 }
 
 pub fn gen(seed: u64, tier: Tier, k: u64) -> Value {
